@@ -1833,12 +1833,12 @@ func (ip *Interp) sliceOp(act *activation, st *State, t *ssa.Slice) Val {
 		if hi == nil {
 			hi = n
 		}
-		return &Slice{Nil: TriF, Base: *b, Off: lo, Len: ip.Ops.Sub(hi, lo), Cap: ip.Ops.Sub(n, lo), ElemT: arr.Elem()}
+		return &Slice{Nil: TriF, Base: *b, Off: lo, Len: ip.sliceLen(lo, hi), Cap: ip.Ops.Sub(n, lo), ElemT: arr.Elem()}
 	case *Slice:
 		if hi == nil {
 			hi = b.Len
 		}
-		return &Slice{Nil: b.Nil, Base: b.Base, Off: ip.Ops.Add(b.Off, lo), Len: ip.Ops.Sub(hi, lo), Cap: ip.Ops.Sub(b.Cap, lo), ElemT: b.ElemT}
+		return &Slice{Nil: b.Nil, Base: b.Base, Off: ip.Ops.Add(b.Off, lo), Len: ip.sliceLen(lo, hi), Cap: ip.Ops.Sub(b.Cap, lo), ElemT: b.ElemT}
 	case *Str:
 		return &Str{}
 	}
@@ -2069,6 +2069,31 @@ func (ip *Interp) callFunc(st *State, site ssa.CallInstruction, fn *ssa.Function
 	res := top("ext:" + name)
 	ev.Result = res
 	return res, true
+}
+
+// sliceLen is high - low of a slice expression that did not panic. When the bounds are
+// the widened values x and x+K of a narrower unsigned computation (`offs : offs+2` with
+// offs uint32), low <= high rules out a wrap of x+K, so the length is K.
+func (ip *Interp) sliceLen(lo, hi *Int) *Int {
+	d := ip.Ops.Sub(hi, lo)
+	if len(d.Lin.T) == 2 && d.Lin.C == 0 {
+		var pos, neg *Atom
+		for _, t := range d.Lin.T {
+			switch t.K {
+			case 1:
+				pos = t.A
+			case mask(d.W):
+				neg = t.A
+			}
+		}
+		if pos != nil && neg != nil && pos.Op == neg.Op && strings.HasPrefix(pos.Op, "zext") && len(pos.Args) == 1 && len(neg.Args) == 1 && pos.Args[0].W == neg.Args[0].W {
+			k := linAdd(pos.Args[0], neg.Args[0], true)
+			if k.IsConst() && k.C < uint64(1)<<uint(pos.Args[0].W-1) {
+				return NewConst(d.W, k.C, d.Signed)
+			}
+		}
+	}
+	return d
 }
 
 func (ip *Interp) builtin(act *activation, st *State, site ssa.CallInstruction, b *ssa.Builtin, c *ssa.CallCommon, args []Val) (Val, bool) {
